@@ -96,14 +96,18 @@ def _run(prop, tier, replay, text, quick_frac):
             shards = sorted(rng.sample(range(nsh), 2))
             mode = 'two'
         jobs += [(scen, s, nsh, mode) for s in shards]
+    if prop == 'C11' and tier != 'thorough':
+        # between namespaces the order of the FILES is what matters: every instance of the namespace scenario in
+        # ascending and descending definition order x both file orders
+        jobs += [('C', s, 8, 'files') for s in range(8)]
     res = run_shards('StoneSemMC', lambda j: _cfg(j[0], j[1], j[2], j[3], wf), jobs, 'semcheck.SemJudge',
                      {'prop': prop}, tlc_kwargs={'timeout': 6000})
     for scen in SCENARIOS:
         sub = [r for r, j in zip(res, jobs) if j[0] == scen]
         agg = merge(sub)
         mine = [j for j in jobs if j[0] == scen]
-        rep.add_tlc('StoneSemMC/' + scen, agg, {'Scenario': scen, 'OrderMode': mine[0][3],
-                                                'shards': [j[1] for j in mine], 'of': mine[0][2]})
+        rep.add_tlc('StoneSemMC/' + scen, agg, {'Scenario': scen, 'OrderMode': sorted({j[3] for j in mine}),
+                                                'shards': [[j[1], j[2], j[3]] for j in mine]})
         rep.add_judged(agg)
     if prop == 'C01':
         lit_stage(rep, 'C01', ('exlit', 'attr', 'docref', 'annot', 'anndef', 'badtype'), quick=(tier == 'quick'))
